@@ -3,6 +3,9 @@
 import os, sys, json, subprocess
 ids = sys.argv[1:] or sorted(os.listdir('/verif/seeded'))
 rows = []
+import shutil
+shutil.rmtree('/tmp/evidence_backup', ignore_errors=True)
+shutil.copytree('/verif/evidence', '/tmp/evidence_backup')
 for sid in ids:
     d = os.path.join('/verif/seeded', sid)
     meta = json.load(open(d + '/meta.json'))
@@ -18,5 +21,7 @@ for sid in ids:
         rows.append((sid, pid, verdict, '; '.join(v.split('replay=')[1].replace('/verif/replays/', '') for v in viol)[:260] or r.stderr.strip()[:200]))
     finally:
         subprocess.run(['git', '-C', '/repo', 'checkout', '--', '.'])
+shutil.rmtree('/verif/evidence')
+shutil.copytree('/tmp/evidence_backup', '/verif/evidence')   # evidence files must come from runs on the unchanged tree
 for r in rows:
     print(' | '.join(r))
